@@ -22,7 +22,7 @@ use string_calculator::verif_hooks::set_thread_hook;
 
 pub const SITE_NAMES: [&str; NSITES] = [
     "ApiEnter", "ApiLexed", "ApiParsed", "TokNext", "TokScan", "SupScan", "ParseNext", "ParseAtom", "ParseClimb",
-    "ParseArgs", "EvalEnter", "EvalLoop", "boundary", "exit", "basic_block", "after_shared_access", "blocked_on_futex",
+    "ParseArgs", "EvalEnter", "EvalLoop", "boundary", "exit", "basic_block", "before_shared_access", "blocked_on_futex", "memory_access", "after_shared_access",
 ];
 
 /// a PRNG-driven run stops pre-empting inside calls after this many context switches (each costs ~20-40 us)
@@ -31,7 +31,7 @@ pub const MAX_INTRA_SWITCHES: u64 = 3000;
 /// per-call cap on ticks inside a simulated run (pool entries need far fewer: see oracle::isolated_tick_cap)
 pub fn call_step_cap() -> u64 {
     if tick::bb_guards() > 0 {
-        64_000_000
+        256_000_000
     } else {
         1_000_000
     }
@@ -237,9 +237,30 @@ fn finish_inconclusive(why: &str) -> ! {
 /// a tick that is due for a scheduling decision (called with in_hook set)
 pub fn slow_tick(c: &TickCtx, site: usize) {
     if let Some(sh) = shared() {
-        let site = if c.pending_shared.replace(false) { SHARED } else { site };
+        let before = c.pending_shared.replace(false);
+        let after = !before && c.pending_after.replace(false);
+        let site = if before {
+            SHARED
+        } else if after {
+            tick::AFTER_SHARED
+        } else {
+            site
+        };
         let wake = sh.decision(c.me.get(), c.call_no.get(), c.ticks.get(), Kind::Tick(site), c);
-        c.wake.set(wake);
+        if before {
+            // the access executes now; a second decision point follows shortly after it: on the very next tick, or
+            // a few (up to a few hundred) ticks later - far enough to leave the critical section the access was
+            // made in, so that "unlock ... re-lock" windows right after a shared store get their pre-emption
+            c.pending_after.set(true);
+            let d = {
+                let mut st = sh.m.lock().unwrap();
+                let span = [0u64, 0, 4, 16, 64, 256, 1024][st.rng.below(7)];
+                if span == 0 { 0 } else { st.rng.below(span as usize + 1) as u64 }
+            };
+            c.wake.set((c.ticks.get() + 1 + d).min(wake));
+        } else {
+            c.wake.set(wake);
+        }
     }
 }
 
@@ -359,7 +380,7 @@ impl St {
                     }
                 }
                 Kind::Tick(s) => {
-                    if s != SHARED || self.rng.chance(*q) {
+                    if (s != SHARED && s != tick::AFTER_SHARED) || self.rng.chance(*q) {
                         self.random_other(me).or(stay)
                     } else {
                         stay
